@@ -800,6 +800,23 @@ pub fn tree_space(max_entries: usize) -> TreeSpace {
     TreeSpace { names: vec!["a", "b"], max_depth: 2, max_entries, contents: vec![b"x".to_vec()], links: LinkDomain::Resolving, extra_targets: vec![], target_depth: 2 }
 }
 
+/// the pre-states of the Stdfs half: every tree of the space, files 0o640 and directories 0o750 (not what
+/// mkfile / mkdir_p / write_all give a new entry: a wrapper arm that re-applies a default mode to an entry
+/// that already exists differs from the direct call only then)
+pub fn stdfs_trees(max_entries: usize) -> Vec<Tree> {
+    let mut v = enum_trees(&tree_space(max_entries));
+    for t in v.iter_mut() {
+        for n in t.nodes.values_mut() {
+            if n.is_file() {
+                n.mode = 0o640;
+            } else if n.is_dir() {
+                n.mode = 0o750;
+            }
+        }
+    }
+    v
+}
+
 /// mutators of the Stdfs half (model coordinates): structure over the namespace + the supplement
 pub fn stdfs_mutators() -> Vec<Op> {
     let ns = namespace(&["a", "b"], 2);
@@ -1371,7 +1388,7 @@ pub fn worker(w: &mut WorkerCtx) {
             w.vio(&sig, || detail, || J::obj([("world", J::s("stdfs")), ("what", J::s("mode-sweep"))]));
         }
     }
-    let trees = enum_trees(&tree_space(max_entries));
+    let trees = stdfs_trees(max_entries);
     let mut st = DStats::default();
     let mut ntrees = 0u64;
     for (idx, tree) in trees.iter().enumerate() {
@@ -1617,7 +1634,7 @@ fn replay(ctx: &Ctx, p: &std::path::Path) -> i32 {
         let me = case.get("max_entries").and_then(|x| x.as_i64()).unwrap_or(2) as usize;
         let idx = case.get("tree_idx").and_then(|x| x.as_i64()).unwrap_or(0) as usize;
         let what = case.get("what").and_then(|x| x.as_str()).expect("case.what").to_string();
-        let trees = enum_trees(&tree_space(me));
+        let trees = stdfs_trees(me);
         let tree = trees.get(idx).expect("tree index");
         println!("replay {} stdfs tree=[{}] {}", ctx.prop, tree.render(), what);
         let sb = Sandbox::new("c13r");
